@@ -211,6 +211,26 @@ func VH_C06_Bytes() {
 	for i := 0; i < len(in); i++ {
 		vAssume(in[i] < 0x80) // column arithmetic on ASCII; multi-byte columns are C04's subject
 	}
+	vhC06BytesIn(in)
+}
+
+// VH_C06_LongError: a long unlexable remainder (the error message quotes a
+// bounded sample of it): 13..17 concrete bytes that no rule matches, followed by
+// an arbitrary tail (any bytes, also invalid or truncated UTF-8).
+func VH_C06_LongError() {
+	prefix := "?????????????????"[:13+vChoose("prefix", 5)]
+	n := vChoose("len", vhMaxBytes+1)
+	tail := vString("in", n)
+	p, berr := Build[vgWords](Lexer(vhWordsDef()))
+	vAssert(berr == nil, "catalogue grammar must build")
+	ast, err := p.ParseString("file.txt", prefix+tail)
+	vAssert(err != nil && ast == nil, "C06: a lexing failure must come with a nil AST and an error")
+	perr, ok := err.(interface{ Position() lexer.Position })
+	vAssert(ok && perr.Position().Offset == 0 && perr.Position().Filename == "file.txt", "C06: lexing error is not located at the unlexable text")
+	vReach("lex-error")
+}
+
+func vhC06BytesIn(in string) {
 	fn := "file.txt"
 	p, berr := Build[vgWords](Lexer(vhWordsDef()))
 	vAssert(berr == nil, "catalogue grammar must build")
